@@ -1,0 +1,31 @@
+//go:build verif
+
+package synchronization
+
+import (
+	"github.com/mutagen-io/mutagen/pkg/synchronization/core"
+)
+
+// Verification hook (add-only, build tag verif): exports the unexported safety
+// predicates of safety.go unchanged so that the /verif harness can compare
+// them with their Coq model. No behaviour is added or modified.
+
+// VerifOneEndpointEmptiedRoot exposes oneEndpointEmptiedRoot.
+func VerifOneEndpointEmptiedRoot(ancestor, alpha, beta *core.Entry) bool {
+	return oneEndpointEmptiedRoot(ancestor, alpha, beta)
+}
+
+// VerifContainsRootDeletion exposes containsRootDeletion.
+func VerifContainsRootDeletion(changes []*core.Change) bool {
+	return containsRootDeletion(changes)
+}
+
+// VerifContainsRootTypeChange exposes containsRootTypeChange.
+func VerifContainsRootTypeChange(changes []*core.Change) bool {
+	return containsRootTypeChange(changes)
+}
+
+// VerifFilteredPathsAreSubset exposes filteredPathsAreSubset.
+func VerifFilteredPathsAreSubset(filteredPaths, originalPaths []string) bool {
+	return filteredPathsAreSubset(filteredPaths, originalPaths)
+}
